@@ -337,11 +337,13 @@ def oracle_eigs(c, obs):
                 return bad                                   # the first block itself is (nearly) degenerate for this start: nothing to demand
             q = x / r
     noise = epsm * scale * n
-    if r is not None and r > 100.0 * c["tol"] * aq0 and r > 1e3 * noise:
+    # normalising a remainder of norm r amplifies rounding noise by noise/r: that is the accuracy the second block can have
+    acc = max(1e-2 if f32 else 1e-6, 1e3 * noise / r) if r else None
+    if r is not None and r > 100.0 * c["tol"] * aq0 and r > 1e3 * noise and acc <= 3e-2:
         lam = np.linalg.eigvals(S)
         if len(w) != n:
             bad.append(f"arnoldi_eigs with max_iters >= n returned {len(w)} eigenvalues for an operator of size {n}")
-        elif hausdorff(w, lam) > (1e-2 if f32 else 1e-6) * scale:
+        elif hausdorff(w, lam) > acc * scale:
             bad.append(f"arnoldi_eigs with max_iters >= n and tol={c['tol']} (coupling remainder {r:.3g} = {r / (c['tol'] * aq0):.3g} x tol*||A q_0||) "
                        f"does not return the spectrum of A (distance {hausdorff(w, lam):.3g})")
     return bad
